@@ -848,6 +848,30 @@ func c16Typestate(c *Ctx, T *types.Named, fi *flagInfo, reachesSend func(ssa.Cal
 			}
 		})
 		c.R.Check(cleared, "R-flag-typestate", tn+".Close clears the flag", c.Pos(closeM.Pos()), "Close marks the client uninitialized", sprintf("%s.Close does not clear the initialized flag: operations after Close are not refused", tn))
+		// ... and on every path once the transport has been closed — also when closing it reported an error (the child
+		// had already exited, the pipe was already closed): the connection is gone either way
+		if tr := c.transportIface(); tr != nil && cleared {
+			cn := c.transportCloseMethod(tr)
+			var closeCall ssa.Instruction
+			ir.EachInstr(closeM, func(_ *ssa.BasicBlock, _ int, in ssa.Instruction) {
+				if call, ok := in.(ssa.CallInstruction); ok {
+					cc := call.Common()
+					if cc.IsInvoke() && cc.Method.Name() == cn {
+						closeCall = in
+					} else if sc := ir.StaticCallee(call); sc != nil && sc.Name() == cn && sc.Signature.Recv() != nil {
+						closeCall = in
+					}
+				}
+			})
+			if closeCall != nil {
+				esc := flow.ExitsAvoiding(closeM, closeCall, func(x ssa.Instruction) bool {
+					v, ok := fi.write(x)
+					return ok && v == "false"
+				}, false)
+				c.R.Check(esc == nil, "R-flag-typestate", tn+".Close clears the flag on every path", c.Pos(closeM.Pos()), "after the transport is closed every return has cleared the flag",
+					sprintf("%s.Close can return (near %s) after closing the transport without clearing the initialized flag (for instance when the transport reports an error because the child already exited): the client keeps claiming to be initialized, later operations are sent into a dead transport and a new Initialize is refused", tn, iposEsc(c, esc)))
+			}
+		}
 	}
 	// state: every path from the "connected" state write to an error return passes a "disconnected" write
 	stateOf := func(in ssa.Instruction) string {
